@@ -112,9 +112,27 @@ pub fn output_tokens(
     let trait_ident = &out_trait.ident;
     let trait_unsafety = &out_trait.unsafety;
     // A method that consumes `self` moves the `T` out of the `Impl<T>`
+    // (and the future of an async `&mut self` method holds a `&mut T`, which is `Send` only if `T` is)
+    let holds_mut_across_await = out_trait.fns.iter().any(|trait_fn| {
+        trait_fn.originally_async
+            && matches!(
+                trait_fn.sig().inputs.first(),
+                Some(syn::FnArg::Receiver(receiver)) if match (&receiver.reference, receiver.ty.as_ref()) {
+                    (Some(_), _) => receiver.mutability.is_some(),
+                    (None, syn::Type::Reference(reference)) => reference.mutability.is_some(),
+                    _ => false,
+                }
+            )
+    });
     let params = out_trait.generics.impl_params_from_idents(
         generic_idents,
-        generics::has_any_receiver_by_value(out_trait.fns.iter().map(|trait_fn| trait_fn.sig())),
+        generics::TakesSelfByValue(
+            holds_mut_across_await
+                || generics::has_any_receiver_by_value(
+                    out_trait.fns.iter().map(|trait_fn| trait_fn.sig()),
+                )
+                .0,
+        ),
     );
     let args = out_trait
         .generics
@@ -512,11 +530,29 @@ fn gen_delegation_method<'s>(
                         && matches!(receiver.ty.as_ref(), syn::Type::Path(ty) if ty.path.is_ident("Self"))
             );
 
+            // `&mut self` or `self: &mut Self`
+            let takes_self_by_mut_ref = match fn_sig.inputs.first() {
+                Some(syn::FnArg::Receiver(receiver)) => match (&receiver.reference, receiver.ty.as_ref()) {
+                    (Some(_), _) => receiver.mutability.is_some(),
+                    (None, syn::Type::Reference(reference)) => reference.mutability.is_some(),
+                    _ => false,
+                },
+                _ => false,
+            };
+
             DelegatingMethod {
                 trait_fn,
                 sig: fn_sig.clone(),
                 // Fully qualified: a supertrait may have a method of the same name
-                call: if !matches!(fn_sig.inputs.first(), Some(syn::FnArg::Receiver(_))) {
+                call: if takes_self_by_mut_ref {
+                    // `&mut Impl<T>` -> `&mut T`
+                    quote! {
+                        <#impl_t as #trait_with_arguments>::#fn_ident #turbofish(
+                            <Self as ::#core::ops::DerefMut>::deref_mut(#self_token),
+                            #(#arguments),*
+                        )
+                    }
+                } else if !matches!(fn_sig.inputs.first(), Some(syn::FnArg::Receiver(_))) {
                     // an associated fn without a receiver is the associated fn of the inner type
                     quote! {
                         <#impl_t as #trait_with_arguments>::#fn_ident #turbofish(#(#arguments),*)
